@@ -613,3 +613,61 @@ _add("C20", "compatible retypings are reported (compatibleRetypeSeverity re-extr
             "schemas against the schema built from their own SDL; defaults enter the model as GraphQL values of their position (gql_canon_default, independent "
             "of the library's printer).",
      "Known findings G1, G4 (pinned). Repaired: G2, G3, G5, Python-equal defaults, subclass kinds, hash-dependent order, defaults as GraphQL values.")
+
+
+# ---------------------------------------------------------------------------------------------------------------
+# C18 / C19: narrative brought up to date with the tree after the first wave of deepening builders (texts REPLACE the
+# ones above; obligation names are appended by manifest_gen.py).
+# ---------------------------------------------------------------------------------------------------------------
+CHECKS["C18"].update({
+    "text": ("Generic table-driven model of lang/visitor.py over rose trees (Visit.lean: _visit_method wrapper with keep / replace / delete / skip / raise, "
+             "map_and_filter, classdispatch and the isinstance cascade, DispatchingVisitor, ChainedVisitor before and after the SkipNode repair, chains of "
+             "chains). The traversal TABLE - every statement of every _visit_* body (attribute, one/many, guard, assignment, call target), the visit / "
+             "dispatcher / enter_* / leave_* registries, __slots__ of every node class, the flags crossKind and chainPersonalSkip observed on the real code, "
+             "and four witness documents parsed by the real parser - is RE-EXTRACTED on every run (Generated/VisitTable.lean). Proved for every table and "
+             "visitor: identity_noop, balanced (well-bracketed trace, parents around children), once, coverage_partial (calls of an identity visit = "
+             "pre/post-order over the IMPLEMENTED child relation) with its converse identity_total / identity_completes_iff, model_total / "
+             "visit_never_out_of_fuel, covered_children_visited; delete_local / replace_local / skip_local and, at every position reached through the "
+             "implemented relation, delete_at / replace_at / skip_at (= Spec.editAt); chained_order, chained_order_personal / chained_skip_personal "
+             "(repaired SkipNode semantics), nested_chain_flat_is_chain. Closed by decide +kernel on the generated table: table_closed, visit_total, "
+             "dispatching_total, table_steps_distinct, dispatchers_agree_with_visit, missed_children_today (coverage read as: all children EXCEPT 15 listed "
+             "(kind, attribute) pairs, W1-W4) + uncovered_partition, once_today, edits_today. Full coverage is REFUTED (full_coverage_false, gaps_executable, "
+             "gaps_type_system, order_violated: W1-W5) and ChainedVisitor discards member deletions / replacements (chain_not_faithful, W6). Tied by trace "
+             "(phase, node identity, kind, handler) and result-tree correspondence with scripted real visitors at every node position, Spec.editAt against the "
+             "real code, and a direct exactly-once / nesting / locality / chain-order oracle."),
+    "note": ("Trusted: Lean kernel; the table extractor C18_table.py (shape-checked static extraction from the Python ast of visitor.py; a dynamic fallback "
+             "C18_dynamic.py observes the table on one maximal instance per node class when a shape is not recognised - evidence key `extraction`); "
+             "generators. The hand-written wrapper / map_and_filter / chain models are tied by the correspondence only. Only exercised: in-place aliasing "
+             "(child lists never edited in place, structurally equal siblings), DispatchingVisitor class histories, `visitors` reassigned after "
+             "construction, ChainedVisitor subclasses as members, CPython recursion limit (known finding W9: RecursionError with enters without leaves on "
+             "documents nested deeper than the interpreter stack). Known findings W1-W6 (pinned by the literal event lists of test_visitor.py or not a small "
+             "repair). Repaired: W2b, W3b, W5b, W7, W8, W10."),
+    "technique": "Lean 4 proof over source-extracted traversal table (generic theorems + decide on the generated table) + visitor trace / tree correspondence",
+})
+CHECKS["C19"].update({
+    "text": ("Model of utilities/collect_fields.py (collect_fields_untyped with the shared visited-fragments set, selected_fields / _selected_paths with its "
+             "re-extracted skip hook) and utilities/max_depth.py (MaxDepthValidationRule.__call__: operation_name filter, per-operation variable coercion "
+             "with fallback to the raw request variables, conditions that cannot be evaluated keep the selection, _nesting_levels with the nesting budget "
+             "and the `unbounded` verdict on fragment cycles) in Depth.lean, behind variant flags re-extracted from the source on every run "
+             "(Generated/DepthVariant: tolerantSkip, budgeted, sharedSeen, lenientSelectedFields), against an independent depth specification "
+             "(DepthSpec.depth: longest chain of nested selection sets with fragments inlined and @skip/@include evaluated). Headline, for the rule the tree "
+             "runs today (ruleB): no_raise_all and pipelineB_never_raises (no hypothesis at all), flags_iff_final (unique fragment names + declarative "
+             "acyclicity only: flagged <=> selected by the filter and depthRK > limit, reported depth exact, no fuel, no bound), flags_iff_final_available "
+             "(per-operation availability => the plain specified depth), unbounded_only_if_invalid, cyclic_repaired_reports; the earlier layers flags_iff "
+             "/ flags_iff_v / flags_iff_raw / flags_uncoercible / flags_iff_repaired, pipeline_rejects_iff(_raw/_repaired) (request rejected with a depth "
+             "error iff a selected operation is deeper than n, all n >= 0, all filters), no_raise(_v/_repaired), name_filter, acyclic_iff_Acyclic, "
+             "depth_fuel_irrelevant, measured_eq_depth. Wrapping never lowers (never changes) the measured depth: wrap_inline_ge / wrap_spread_ge "
+             "(operation level), wrap_inline_in_fragment_ge / wrap_spread_in_fragment_ge (inside fragment bodies), and for the live measure depthK with ANY "
+             "request variables wrap_inline_final, wrap_inline_in_fragment_final, wrap_spread_in_fragment_final. selected_fields: selected_fields_exact "
+             "(listed paths = selected paths within maxdepth matching the pattern), _sound, _complete, _exact_lenient, _lenient_eq_strict. decide "
+             "refutations for the original rule and the original selected_fields (Props/C19_orig.lean, C19_paths.lean). Tied by correspondence (error set "
+             "per operation, raises, listed paths) and the direct oracles flagged <=> reference depth > limit and listed = reference paths on exhaustive "
+             "small distributions of a selection over inline / named fragments, raw JSON variable assignments, histories on one rule instance and Document, "
+             "cyclic documents, wide selection sets, deep chains (500..3000), also through graphql_blocking(validators=[default, rule])."),
+    "note": ("Trusted: Lean kernel; generators; extraction of the variant flags; the iterative level-by-level _nesting_levels of C19-Q3 is modelled by the "
+             "equivalent recursion nestingLevelsG (equivalence exercised by every stream, not proved); statelessness of the rule between calls is checked by "
+             "the history stream, not proved; float forms of request variables are not generated. The in-fragment wrap theorems take validity of the wrapped "
+             "document as a hypothesis. Known findings H1 (a FLAT operation behind ~988 forwarding fragments is reported too deep: RecursionError inside one "
+             "level), H3 (exponential number of collections with key merging across levels; verdicts correct). Repaired: Q1, Q1sf, Q1-vars, Q1-vars2, Q2, Q3, H2."),
+    "technique": "Lean 4 proof (rule = spec depth on the live variant, wrapping invariance, path exactness) + exhaustive small-scope correspondence and cost oracle",
+})
